@@ -8,7 +8,7 @@ use crate::specs::*;
 use crate::anchor_shim::*;
 use crate::authority::Signer;
 use crate::oracle::*;
-use crate::validators::{WhirlpoolsConfig, AdaptiveFeeTier};
+use crate::validators::{WhirlpoolsConfig, AdaptiveFeeTier, Oracle};
 use crate::settings_handlers::{Context, Program, System};
 //@ tags C04 C19 C14
 
@@ -36,5 +36,39 @@ use crate::settings_handlers::{Context, Program, System};
             && final(ctx.accounts).adaptive_fee_tier.data == (AdaptiveFeeTier { filter_period, decay_period, reduction_factor, adaptive_fee_control_factor,
                     max_volatility_accumulator, tick_group_size, major_swap_threshold_ticks, ..old(ctx.accounts).adaptive_fee_tier.data }), //# C19 C14
         r is Err ==> final(ctx.accounts).adaptive_fee_tier.data == old(ctx.accounts).adaptive_fee_tier.data,
+//@ end
+
+// ------------------------------------------------------------------ set_adaptive_fee_constants (per-pool constants in the oracle account)
+//@ assume set_adaptive_fee_constants shims: AccountLoader<Oracle>::load_mut hands out the oracle account mutably (the zero-copy borrow is not modelled); `updated_constants == existing_constants` (derived PartialEq on a plain-data struct) is structural equality (helper constants_eq); Option::unwrap_or has its std meaning
+use crate::state_core::Whirlpool;
+pub struct AccountLoader<'info, T> { pub data: T, pub k: Pubkey, pub p: core::marker::PhantomData<&'info ()> }
+impl<'info, T> AccountLoader<'info, T> {
+    #[verifier::external_body]
+    pub fn load_mut(&mut self) -> (r: Result<&mut T>) ensures r matches Ok(x) ==> *x == old(self).data && *final(x) == final(self).data && final(self).k == old(self).k, r is Err ==> *final(self) == *old(self) { unimplemented!() }
+}
+impl<'info, T> SKey for AccountLoader<'info, T> { open spec fn skey(&self) -> Pubkey { self.k } }
+#[verifier::external_body]
+pub fn constants_eq(a: &AdaptiveFeeConstants, b: &AdaptiveFeeConstants) -> (r: bool) ensures r == (*a == *b) { unimplemented!() }
+//@ struct instructions/adaptive_fee/set_adaptive_fee_constants.rs SetAdaptiveFeeConstants
+//@ constraints instructions/adaptive_fee/set_adaptive_fee_constants.rs SetAdaptiveFeeConstants
+/// C04 / C14 / C19: the config's fee authority signed, the pool belongs to that config and the oracle to that pool; the new constants (each given value replaces
+/// the stored one) differ from the stored ones and are valid for the pool's tick spacing; the adaptive-fee variables restart from their defaults
+//@ fn instructions/adaptive_fee/set_adaptive_fee_constants.rs handler -> r as=set_adaptive_fee_constants_handler canary
+    requires constraints_SetAdaptiveFeeConstants(old(ctx.accounts)),
+    ensures
+        r is Ok ==> old(ctx.accounts).fee_authority.skey() == old(ctx.accounts).whirlpools_config.data.fee_authority && old(ctx.accounts).fee_authority.info.is_signer, //# C04
+        r is Ok ==> old(ctx.accounts).whirlpool.data.whirlpools_config == old(ctx.accounts).whirlpools_config.skey() && old(ctx.accounts).oracle.data.whirlpool == old(ctx.accounts).whirlpool.skey(), //# C04 C15
+        r is Ok ==> ({ let c0 = old(ctx.accounts).oracle.data.adaptive_fee_constants; let c1 = final(ctx.accounts).oracle.data.adaptive_fee_constants;
+            &&& c1.filter_period == (match filter_period { Some(v) => v, None => c0.filter_period }) && c1.decay_period == (match decay_period { Some(v) => v, None => c0.decay_period })
+            &&& c1.reduction_factor == (match reduction_factor { Some(v) => v, None => c0.reduction_factor })
+            &&& c1.adaptive_fee_control_factor == (match adaptive_fee_control_factor { Some(v) => v, None => c0.adaptive_fee_control_factor })
+            &&& c1.max_volatility_accumulator == (match max_volatility_accumulator { Some(v) => v, None => c0.max_volatility_accumulator })
+            &&& c1.tick_group_size == (match tick_group_size { Some(v) => v, None => c0.tick_group_size })
+            &&& c1.major_swap_threshold_ticks == (match major_swap_threshold_ticks { Some(v) => v, None => c0.major_swap_threshold_ticks })
+            &&& c1 != c0 && c1.valid_for(old(ctx.accounts).whirlpool.data.tick_spacing as int)
+            &&& is_vars_default(final(ctx.accounts).oracle.data.adaptive_fee_variables)
+            &&& final(ctx.accounts).oracle.data.whirlpool == old(ctx.accounts).oracle.data.whirlpool && final(ctx.accounts).oracle.data.trade_enable_timestamp == old(ctx.accounts).oracle.data.trade_enable_timestamp }), //# C14 C19
+//@ rewrite /let mut oracle = ctx\.accounts\.oracle\.load_mut\(\)\?;/ => /let oracle = ctx.accounts.oracle.load_mut()?;/
+//@ rewrite /if updated_constants == existing_constants \{/ => /if constants_eq(&updated_constants, &existing_constants) {/
 //@ end
 }
